@@ -81,6 +81,38 @@ def apply_transform(root: str, spec) -> str | None:
                 with open(p, 'w', encoding='utf-8') as f:
                     f.write(out)
         return None
+    if kind == 'guards-to-if':
+        # every `sert/vert/tert(cond, msg)` statement of the named files becomes `if not (cond): raise X(msg)`
+        cls = {'sert': 'ScriptExecutionError', 'vert': 'ValueError', 'tert': 'TypeError', 'yert': 'SyntaxError'}
+        for rel in spec[1]:
+            p = os.path.join(root, rel)
+            src = open(p, encoding='utf-8').read()
+            tree = ast.parse(src)
+            lines = src.split('\n')
+            edits = []
+            for n in ast.walk(tree):
+                if isinstance(n, ast.Expr) and isinstance(n.value, ast.Call) and isinstance(n.value.func, ast.Name) \
+                        and n.value.func.id in cls and 1 <= len(n.value.args) <= 2 and not n.value.keywords:
+                    c = n.value
+                    cond = ast.unparse(c.args[0])
+                    msg = ast.unparse(c.args[1]) if len(c.args) == 2 else "''"
+                    ind = ' ' * n.col_offset
+                    new = f'if not ({cond}):\n{ind}    raise {cls[c.func.id]}({msg})'
+                    edits.append((n.lineno, n.col_offset, n.end_lineno, n.end_col_offset, new))
+            edits.sort(reverse=True)
+            for l1, c1, l2, c2, new in edits:
+                head = lines[l1 - 1][:c1]
+                tail = lines[l2 - 1][c2:]
+                lines[l1 - 1:l2] = [head + new + tail]
+            out = '\n'.join(lines)
+            # the exception classes must be importable where they are raised
+            if 'functions.py' in rel:
+                out = out.replace('from .errors import tert, vert, sert', 'from .errors import tert, vert, sert, ScriptExecutionError')
+            if 'classes.py' in rel:
+                out = out.replace('from .errors import sert, tert', 'from .errors import sert, tert, ScriptExecutionError')
+            with open(p, 'w', encoding='utf-8') as f:
+                f.write(out)
+        return None
     if kind == 'rename':
         p = os.path.join(root, spec[1])
         src = open(p, encoding='utf-8').read()
